@@ -41,26 +41,37 @@ enum { API_F32=0, API_S16, API_S24, API_N };
 static const char *const api_name[API_N]={"float","int16","int24"};
 static const int RATES[5]={8000,12000,16000,24000,48000};
 
-static mc_ctr *c_states,*c_trans,*c_eval,*c_dn,*c_streams,*c_packets,*c_pairs,*c_ident,*c_qcomp,*c_qdef,*c_advf,*c_adv16,*c_adv24,*c_x16,*c_rfc_n,*c_rfc_def,*c_rfc_below,*c_audio_ms,*c_dtxpk,*c_skip16,*c_lowq;
+static mc_ctr *c_states,*c_trans,*c_eval,*c_dn,*c_streams,*c_packets,*c_pairs,*c_ident,*c_qcomp,*c_qdef,*c_advf,*c_adv16,*c_adv24,*c_x16,*c_rfc_n,*c_rfc_def,*c_rfc_below,*c_audio_ms,*c_dtxpk,*c_fallback,*c_lowq;
 static mc_set *S_states,*S_classes,*S_toc,*S_trans,*S_codes;
 static int opt_fam, opt_rfcproc, opt_apis;
 
+/* ---- observation of redundancy frames: every call the TREE library makes to ec_dec_bit_logp() goes through this wrapper
+ * (-Wl,--wrap; the frozen libraries' symbols are renamed, so they are not affected). A SILK-only / hybrid frame reads: the SILK header
+ * flags (VAD per 20 ms frame + LBRR, per coded channel: N = (frames+1)*channels reads of logp 1), then after the SILK payload, in
+ * opus_decode_frame(), [hybrid: the redundancy flag, logp 12] and, if redundancy is present, the celt_to_silk bit (logp 1), before any
+ * CELT call (whose first read is the silence flag, logp 15). Used for evidence counters only, never for an oracle. */
+struct ec_ctx; int __real_ec_dec_bit_logp(struct ec_ctx *d,unsigned logp);
+#define HOOKMAX 24
+static int hook_on,hook_n,hook_logp[HOOKMAX],hook_res[HOOKMAX];
+int __wrap_ec_dec_bit_logp(struct ec_ctx *d,unsigned logp){ int r=__real_ec_dec_bit_logp(d,logp); if(hook_on&&hook_n<HOOKMAX){ hook_logp[hook_n]=(int)logp; hook_res[hook_n]=r; hook_n++; } return r; }
+static mc_ctr *c_nored_to[2][4],*c_nored_from[2][4],*c_red_to,*c_red_from,*c_nored_after_gap,*c_loss_adv,*c_loss_streams;
+
 static int triple_of(int toc){ return (rfc_mode(toc)*5+rfc_bandwidth(toc))*2+rfc_channels(toc)-1; }
-static const char *modeclass(const corpus *c){ static const char *const n[3]={"silk","hybrid","celt"}; int i,m=-1; for(i=0;i<c->n;i++){ int k=rfc_mode(c->p[i].data[0]); if(m<0) m=k; else if(m!=k) return "mixed"; } return m<0?"none":n[m]; }
+static const char *modeclass(const corpus *c){ static const char *const n[3]={"silk","hybrid","celt"}; int i,m=-1; for(i=0;i<c->n;i++){ int k; if(!c->p[i].len) continue; k=rfc_mode(c->p[i].data[0]); if(m<0) m=k; else if(m!=k) return "mixed"; } return m<0?"none":n[m]; }
 
 /* 16-bit sample values held in floats (what opus_compare's read_pcm16 yields) */
 static void to16_f(float *o,const float *in,long n){ long i; for(i=0;i<n;i++){ float v=in[i]*32768.f; if(!(v>-32768.f)) v=-32768.f; else if(v>32767.f) v=32767.f; o[i]=(float)lrintf(v); } }
 static void to16_s(float *o,const opus_int16 *in,long n){ long i; for(i=0;i<n;i++) o[i]=in[i]; }
 static void to16_w(float *o,const opus_int32 *in,long n){ long i; for(i=0;i<n;i++){ long v=((long)in[i]+128)>>8; if(v>32767) v=32767; else if(v<-32768) v=-32768; o[i]=(float)v; } }
 
-typedef struct { const sitem *it; const corpus *c; const char *name; const char *mclass; long len48; int nframes; int allmono;
+typedef struct { const sitem *it; const corpus *c; const char *name; const char *mclass; long len48; int nframes; int allmono; int has_loss;
                  oc_spec X48s,X48m; int have48; uint64_t *pclass; int npclass; } ictx;
 
 static void fail_pcm(const ictx *I,int rate,int ch,int api,float Q,double err,const float *x,const float *y,long n){
    char sig[96]; long i,first=-1; float mx=0; for(i=0;i<n;i++){ float d=fabsf(x[i]-y[i]); if(d>0&&first<0) first=i; if(d>mx) mx=d; }
    snprintf(sig,sizeof sig,"pcm_q_below_0:%s:%s:%s",PARTNAME,api_name[api],I->mclass);
    mc_info("Q<0: [%s] %d Hz x %d ch %s Q=%.1f",I->name,rate,ch,api_name[api],Q);
-   mc_fail(sig,"stream [%s] (item %ld, %d packets) decoded at %d Hz x %d ch with the %s API: conformance metric of tree-%s vs frozen float reference Q=%.2f (weighted error %.4f; pass needs Q>=0); first differing sample %ld of %ld, max |diff| %.0f (16-bit units)",
+   mc_fail(sig,"stream [%s] (item %ld, %d packets) decoded at %d Hz x %d ch with the %s API: conformance metric of tree-%s vs the frozen reference (float build; fixed build where the two frozen builds disagree) Q=%.2f (weighted error %.4f; pass needs Q>=0); first differing sample %ld of %ld, max |diff| %.0f (16-bit units)",
            I->name,mc_cur_item(),I->c->n,rate,ch,api_name[api],PARTNAME,Q,err,first,n,mx);
 }
 
@@ -71,19 +82,20 @@ static void run_config(ictx *I,int ri,int ch){
    float *tf=malloc(sizeof(float)*cap),*rf=malloc(sizeof(float)*cap),*xf=malloc(sizeof(float)*cap);
    opus_int16 *t16=malloc(2*cap),*r16=malloc(2*cap),*x16=malloc(2*cap);
    opus_int32 *t24=malloc(4*cap),*r24=malloc(4*cap),*x24=malloc(4*cap);
-   int bad_count[API_N]={0,0,0}, bad_rng=0, bad_ref=0;
+   int bad_count[API_N]={0,0,0}, bad_rng=0, bad_ref=0, w_pm=-1, w_prtocelt=0, w_gap=0;
    memset(T,0,sizeof T); memset(R,0,sizeof R); memset(X,0,sizeof X);
    mc_case("decode","stream [%s] item %ld at %d Hz x %d ch",I->name,mc_cur_item(),rate,ch);
    for(a=0;a<API_N;a++){ T[a]=opus_decoder_create(rate,ch,&err); R[a]=ref_opus_decoder_create(rate,ch,&err); X[a]=reffx_opus_decoder_create(rate,ch,&err);
       if(!T[a]||!R[a]||!X[a]){ mc_fail("decoder_create","opus_decoder_create(%d,%d) failed (tree %p ref %p reffx %p)",rate,ch,(void*)T[a],(void*)R[a],(void*)X[a]); goto done; } }
    for(p=0;p<c->n;p++){
       const cpkt *k=&c->p[p]; int want=k->dur48/ds, nT[API_N],nR[API_N],nX[API_N]; opus_uint32 gT[API_N],gR[API_N],gX[API_N];
+      const unsigned char *kd=k->len?k->data:NULL; int fs_=k->len?maxfs:want, watch=(ri==4&&ch==2);   /* a lost packet: decode(NULL,0) for exactly its duration */
       for(a=0;a<API_N;a++){
          if(!(opt_apis&(1<<a))) continue;
          switch(a){
-         case API_F32: nT[a]=opus_decode_float(T[a],k->data,k->len,tf+off*ch,maxfs,0); nR[a]=ref_opus_decode_float(R[a],k->data,k->len,rf+off*ch,maxfs,0); nX[a]=reffx_opus_decode_float(X[a],k->data,k->len,xf+off*ch,maxfs,0); break;
-         case API_S16: nT[a]=opus_decode(T[a],k->data,k->len,t16+off*ch,maxfs,0); nR[a]=ref_opus_decode(R[a],k->data,k->len,r16+off*ch,maxfs,0); nX[a]=reffx_opus_decode(X[a],k->data,k->len,x16+off*ch,maxfs,0); break;
-         default:      nT[a]=opus_decode24(T[a],k->data,k->len,t24+off*ch,maxfs,0); nR[a]=ref_opus_decode24(R[a],k->data,k->len,r24+off*ch,maxfs,0); nX[a]=reffx_opus_decode24(X[a],k->data,k->len,x24+off*ch,maxfs,0); break;
+         case API_F32: hook_on=watch; hook_n=0; nT[a]=opus_decode_float(T[a],kd,k->len,tf+off*ch,fs_,0); hook_on=0; nR[a]=ref_opus_decode_float(R[a],kd,k->len,rf+off*ch,fs_,0); nX[a]=reffx_opus_decode_float(X[a],kd,k->len,xf+off*ch,fs_,0); break;
+         case API_S16: nT[a]=opus_decode(T[a],kd,k->len,t16+off*ch,fs_,0); nR[a]=ref_opus_decode(R[a],kd,k->len,r16+off*ch,fs_,0); nX[a]=reffx_opus_decode(X[a],kd,k->len,x16+off*ch,fs_,0); break;
+         default:      nT[a]=opus_decode24(T[a],kd,k->len,t24+off*ch,fs_,0); nR[a]=ref_opus_decode24(R[a],kd,k->len,r24+off*ch,fs_,0); nX[a]=reffx_opus_decode24(X[a],kd,k->len,x24+off*ch,fs_,0); break;
          }
          opus_decoder_ctl(T[a],OPUS_GET_FINAL_RANGE(&gT[a])); ref_opus_decoder_ctl(R[a],OPUS_GET_FINAL_RANGE(&gR[a])); reffx_opus_decoder_ctl(X[a],OPUS_GET_FINAL_RANGE(&gX[a]));
          MC_INC(c_trans); MC_ADD(c_eval,2);
@@ -95,8 +107,18 @@ static void run_config(ictx *I,int ri,int ch){
             mc_fail(sig,"stream [%s] packet %d (%d bytes %s) at %d Hz x %d ch, %s API: tree returns %d, frozen reference %d",I->name,p,k->len,mc_hex(k->data,k->len<24?k->len:24),rate,ch,api_name[a],nT[a],nR[a]); }
          /* clause 1b: final range, tree vs reference decoder */
          if (gT[a]!=gR[a] && !bad_rng){ char sig[80]; bad_rng=1; snprintf(sig,sizeof sig,"final_range_vs_ref:%s:%s",PARTNAME,I->mclass);
-            mc_fail(sig,"stream [%s] packet %d of %d (%d bytes, TOC %02x, %s) at %d Hz x %d ch, %s API: tree final range %08x, frozen reference decoder %08x (frozen fixed %08x, encoder %08x)",I->name,p,c->n,k->len,k->data[0],mc_hex(k->data,k->len<32?k->len:32),rate,ch,api_name[a],gT[a],gR[a],gX[a],k->enc_range); }
+            mc_fail(sig,"stream [%s] packet %d of %d (%d bytes, TOC %02x, %s) at %d Hz x %d ch, %s API: tree final range %08x, frozen reference decoder %08x (frozen fixed %08x, encoder %08x)",I->name,p,c->n,k->len,k->len?k->data[0]:0,mc_hex(k->data,k->len<32?k->len:32),rate,ch,api_name[a],gT[a],gR[a],gX[a],k->enc_range); }
          /* (tree == encoder's reported range) follows from tree == reference decoder and the coherence check reference == encoder above */
+      }
+      if (watch){   /* evidence only: which mode-boundary crossings came with / without a redundancy frame (see opus_decode_frame) */
+         if (k->len<=2){ w_prtocelt=0; w_gap=1; }
+         else { int toc=k->data[0], m=rfc_mode(toc), red=0, c2s=0, d48=rfc_frame_48k(toc), di;
+            if (m!=2){ int N=((d48<=960?1:d48/960)+1)*rfc_channels(toc), q=0; while(q<hook_n&&q<N&&hook_logp[q]==1) q++;
+               if (q==N && q<hook_n){ if(hook_logp[q]==12){ red=hook_res[q]; if(red&&q+1<hook_n&&hook_logp[q+1]==1) c2s=hook_res[q+1]; } else if(m==0&&hook_logp[q]==1){ red=1; c2s=hook_res[q]; } } }
+            if (w_pm>=0 && (m==2)!=(w_pm==2)){
+               if (m==2){ di=d48==120?0:d48==240?1:d48==480?2:3; if(!w_prtocelt){ MC_INC(c_nored_to[w_pm][di]); if(w_gap) MC_INC(c_nored_after_gap); } else MC_INC(c_red_to); }
+               else { di=d48==480?0:d48==960?1:d48==1920?2:3; if(!red){ MC_INC(c_nored_from[m][di]); if(w_gap) MC_INC(c_nored_after_gap); } else MC_INC(c_red_from); } }
+            w_pm=m; w_prtocelt=(m!=2&&red&&!c2s); w_gap=0; }
       }
       if (bad_count[0]||bad_count[1]||bad_count[2]||bad_ref) goto done;   /* PCM buffers no longer aligned: stop this configuration */
       off+=want;
@@ -108,19 +130,28 @@ static void run_config(ictx *I,int ri,int ch){
         if(!(opt_apis&(1<<a))) continue;
         if(a==API_F32){ to16_f(y,tf,n); to16_f(x,rf,n); } else if(a==API_S16){ to16_s(y,t16,n); to16_s(x,r16,n); } else { to16_w(y,t24,n); to16_w(x,r24,n); }
         ident=!memcmp(x,y,sizeof(float)*n);
-        if (a==API_F32){ long i3; overdriven=0; for(i3=0;i3<n;i3++) if(!(fabsf(rf[i3])<=1.0f)){ overdriven=1; break; } }
-        /* G5a: above full scale the 16-bit API of a float build soft-clips (opus_pcm_soft_clip) while a fixed-point build saturates; both are
-           the reference implementation's documented behaviour and differ by design, so the cross-arithmetic 16-bit comparison is only made
-           where the reference output stays inside full scale (the float and 24-bit API comparisons are made regardless). Counted, not hidden. */
-        skipq = IS_FIXED && a==API_S16 && overdriven;
-        if (skipq && MC_INC(c_skip16)<10) mc_info("int16 cross-arithmetic comparison skipped (frozen float output above full scale): [%s] %d Hz x %d ch",I->name,rate,ch);
+        skipq=0; (void)overdriven;
         mc_set_add(S_states,mc_mix(mc_mix(mc_cur_item(),ri*2+ch),a+77));
         if (nf>0 && !skipq){
            MC_INC(c_pairs); MC_INC(c_eval);
            if (!ident){ oc_spec Xs; oc_band_energy(&Ys,y,ch,nf,ds,yb,0); haveY=1; oc_band_energy(&Xs,x,ch,nf,ds,yb,1); Q=oc_score(&Xs,&Ys,rate,&er); oc_free(&Xs); MC_INC(c_qcomp); }
            else MC_INC(c_ident);
+           /* Part 'fixed': the reference implementation exists in two normative arithmetic builds. Where the frozen fixed-point build is itself
+              outside the tolerance of the frozen float build (audio that comes from the non-normative PLC: mode switches without a redundancy
+              frame cross-fade from PLC output, which float and fixed builds synthesise differently; 16-bit output above full scale: soft clip
+              vs saturation) "the reference decoder's output" is not unique, and the tree's fixed build is held to the frozen FIXED build
+              instead. Same threshold, no special-casing of streams; every use is counted. */
+           if (IS_FIXED && !(Q>=0)){ const void *xs = a==API_F32?(const void*)xf:a==API_S16?(const void*)x16:(const void*)x24; float *z=malloc(sizeof(float)*(n+1)); oc_spec Zs,Xs; float Qxr; double e2;
+              if(a==API_F32) to16_f(z,xs,n); else if(a==API_S16) to16_s(z,xs,n); else to16_w(z,xs,n);
+              oc_band_energy(&Zs,z,ch,nf,ds,yb,1); oc_band_energy(&Xs,x,ch,nf,ds,yb,1); Qxr=oc_score(&Xs,&Zs,rate,&e2); oc_free(&Xs);
+              if (!(Qxr>=0)){ int first=MC_INC(c_fallback)<10; float Q0=Q;
+                 if (!memcmp(z,y,sizeof(float)*n)){ Q=100; er=0; } else Q=oc_score(&Zs,&Ys,rate,&er);
+                 if (first) mc_info("reference builds disagree (frozen fixed vs frozen float Q=%.1f): [%s] %d Hz x %d ch %s held to the frozen fixed build: Q=%.1f (vs frozen float %.1f)",Qxr,I->name,rate,ch,api_name[a],Q,Q0);
+                 memcpy(x,z,sizeof(float)*n); }
+              oc_free(&Zs); free(z); }
            { long def=(long)ceil((100.0-Q)*100.0); if(def<0) def=0; MC_MAX(c_qdef,def); }
-           if (!(Q>=0)) fail_pcm(I,rate,ch,a,Q,er,x,y,n);
+           if (!(Q>=0) && I->has_loss){ if(MC_INC(c_loss_adv)<6) mc_info("advisory (stream contains a lost packet; PLC is non-normative): Q=%.1f for [%s] at %d Hz x %d ch %s",Q,I->name,rate,ch,api_name[a]); }
+           else if (!(Q>=0)) fail_pcm(I,rate,ch,a,Q,er,x,y,n);
            else if (Q<50 && MC_INC(c_lowq)<12) mc_info("lowest margins: Q=%.1f for [%s] at %d Hz x %d ch, %s API",Q,I->name,rate,ch,api_name[a]);
            /* advisory: the RFC's literal procedure (48 kHz stereo reference vs decoder under test), where it is meaningful:
               stereo decoders, or mono decoders on all-mono streams (a mono decoder ignores phase inversion, the downmixed stereo reference does not) */
@@ -151,9 +182,10 @@ static void run_item(long idx,void *ctx){
    item_make(it,&c);
    memset(&I,0,sizeof I); I.it=it; I.c=&c; I.name=nm; I.mclass=modeclass(&c); I.allmono=1;
    I.pclass=malloc(sizeof(uint64_t)*(c.n+1));
-   for(p=0;p<c.n;p++){ const cpkt *k=&c.p[p]; int toc=k->data[0], tr=triple_of(toc), code=toc&3, pad=(code==3&&k->len>1&&(k->data[1]&0x40))?1:0, kind=(prev>=0&&prev!=tr)?(prev*32+tr+1):0, q; uint64_t h;
+   for(p=0;p<c.n;p++){ const cpkt *k=&c.p[p]; int toc=k->len?k->data[0]:0, tr=triple_of(toc), code=toc&3, pad=(code==3&&k->len>1&&(k->data[1]&0x40))?1:0, kind=(prev>=0&&prev!=tr)?(prev*32+tr+1):0, q; uint64_t h;
       int empty = k->len<=2;
-      I.len48+=k->dur48; if(rfc_channels(toc)==2) I.allmono=0;
+      I.len48+=k->dur48; if(!k->len){ I.has_loss=1; continue; }
+      if(rfc_channels(toc)==2) I.allmono=0;
       mc_set_add(S_toc,(uint64_t)(toc>>2)+1); mc_set_add(S_codes,(uint64_t)(code*2+pad)+1); if(kind) mc_set_add(S_trans,(uint64_t)kind);
       if (empty) MC_INC(c_dtxpk);
       h=mc_mix(mc_mix(toc>>2,code*2+pad),mc_mix(kind,empty));
@@ -161,11 +193,12 @@ static void run_item(long idx,void *ctx){
       if(q==I.npclass) I.pclass[I.npclass++]=h;
       prev=tr; }
    I.nframes=oc_nframes(I.len48);
+   if (I.has_loss) MC_INC(c_loss_streams);
    MC_INC(c_streams); MC_ADD(c_packets,c.n); MC_ADD(c_audio_ms,I.len48/48);
    if (opt_rfcproc && I.nframes>0){
       /* frozen float decoder at 48 kHz stereo = what the RFC procedure uses as the reference file */
       int err,i; OpusDecoder *d=ref_opus_decoder_create(48000,2,&err); long off=0,n=I.len48; float *f=malloc(sizeof(float)*(n+5760)*2),*s=malloc(sizeof(float)*n*2),*m=malloc(sizeof(float)*n); int ok=1;
-      for(p=0;p<c.n&&ok;p++){ int r=ref_opus_decode_float(d,c.p[p].data,c.p[p].len,f+off*2,5760,0); if(r!=c.p[p].dur48) ok=0; else off+=r; }
+      for(p=0;p<c.n&&ok;p++){ int r=ref_opus_decode_float(d,c.p[p].len?c.p[p].data:NULL,c.p[p].len,f+off*2,c.p[p].len?5760:c.p[p].dur48,0); if(r!=c.p[p].dur48) ok=0; else off+=r; }
       if(ok){ to16_f(s,f,n*2); for(i=0;i<n;i++) m[i]=.5f*(s[2*i]+s[2*i+1]); oc_band_energy(&I.X48s,s,2,I.nframes,1,OC_NBANDS,1); oc_band_energy(&I.X48m,m,1,I.nframes,1,OC_NBANDS,1); I.have48=1; }
       ref_opus_decoder_destroy(d); free(f); free(s); free(m);
    }
@@ -185,7 +218,7 @@ int main(int argc,char **argv){
    G.cfg_rates=(int)mc_arg("--cfg-rates",MC.tier?3:1); G.cfg_sigs=(int)mc_arg("--cfg-sigs",MC.tier?6:2); G.cfg_ms=(int)mc_arg("--cfg-ms",MC.tier?1000:360);
    G.trans_scheds=(int)mc_arg("--trans-scheds",MC.tier?5:2); G.trans_sigs=(int)mc_arg("--trans-sigs",MC.tier?2:1); G.trans_ms=(int)mc_arg("--trans-ms",MC.tier?400:240);
    G.ref_rates=(int)mc_arg("--ref-rates",MC.tier?3:1); G.ref_ms=(int)mc_arg("--ref-ms",MC.tier?720:360);
-   G.feat_sigs=(int)mc_arg("--feat-sigs",MC.tier?3:1); G.feat_ms=(int)mc_arg("--feat-ms",MC.tier?1800:1080); G.silkbw_ms=(int)mc_arg("--silkbw-ms",4300);
+   G.feat_sigs=(int)mc_arg("--feat-sigs",MC.tier?3:1); G.feat_ms=(int)mc_arg("--feat-ms",MC.tier?1800:1080); G.silkbw_ms=(int)mc_arg("--silkbw-ms",4300); G.switch_sigs=(int)mc_arg("--switch-sigs",MC.tier?2:1);
    opt_fam=(int)mc_arg("--fam",-1); opt_rfcproc=(int)mc_arg("--rfcproc",1); opt_apis=(int)mc_arg("--apis",7)|1;   /* the float API is always run: the full-scale guard needs it */
    items_build(&G);
    oc_init();
@@ -196,7 +229,13 @@ int main(int argc,char **argv){
    c_x16=mc_counter("advisory_maxabs_vs_frozen_float_int16");
    c_rfc_n=mc_counter("advisory_rfc_procedure_comparisons"); c_rfc_def=mc_counter("advisory_rfc_procedure_worst_100_minus_Q_x100"); c_rfc_below=mc_counter("advisory_rfc_procedure_Q_below_0");
    c_lowq=mc_counter("pcm_comparisons_with_Q_below_50");
-   c_dtxpk=mc_counter("empty_packets_le2_bytes"); c_skip16=mc_counter("int16_xarith_skipped_ref_above_full_scale");
+   c_dtxpk=mc_counter("empty_packets_le2_bytes"); c_fallback=mc_counter("fixed_held_to_frozen_fixed_ref_builds_disagree");
+   { static const char *const pc[2]={"silk","hybrid"}, *const dt[4]={"2p5ms","5ms","10ms","20ms"}, *const df[4]={"10ms","20ms","40ms","60ms"}; int i,j; char nm[48];
+     for(i=0;i<2;i++) for(j=0;j<4;j++){ snprintf(nm,48,"nored_%s_to_celt_first_%s",pc[i],dt[j]); c_nored_to[i][j]=mc_counter(nm); }
+     for(i=0;i<2;i++) for(j=0;j<(i?2:4);j++){ snprintf(nm,48,"nored_celt_to_%s_first_%s",pc[i],df[j]); c_nored_from[i][j]=mc_counter(nm); }
+     c_nored_from[1][2]=c_nored_from[1][3]=c_nored_from[1][1];
+     c_red_to=mc_counter("redundancy_switches_to_celt"); c_red_from=mc_counter("redundancy_switches_from_celt"); c_nored_after_gap=mc_counter("nored_switches_right_after_dtx_or_loss");
+     c_loss_streams=mc_counter("streams_with_a_lost_packet"); c_loss_adv=mc_counter("advisory_loss_stream_Q_below_0"); }
    S_states=mc_set_new(21); S_classes=mc_set_new(20); S_toc=mc_set_new(8); S_trans=mc_set_new(12); S_codes=mc_set_new(6);
    skipped=mc_par(NITEMS,run_item,NULL); (void)skipped;
    *c_states=mc_set_count(S_states); *c_dn=mc_set_count(S_classes);
